@@ -1556,7 +1556,7 @@ def ADC(
     
     dig_signal = np.round(
         (signal - V_min) / (V_max - V_min) * (2**n - 1)
-    ).astype(int)  # quantize signal between 0 and 2**n-1
+    ).astype(int).clip(0, 2**n - 1)  # quantize signal between 0 and 2**n-1 (samples outside the range saturate)
     
     if otype == 'v':
         dig_signal = (
